@@ -172,32 +172,52 @@ func (sdc *signingDoneCheck) waitUntilAllDone(ctx context.Context) (
 			return nil, 0, errWaitDoneTimedOut
 
 		case <-ticker.C:
-			if sdc.expectedSignersCount == len(sdc.doneSigners) {
-				var signature *tecdsa.Signature
-				var latestEndBlock uint64
-
-				for _, doneMessage := range sdc.doneSigners {
-					if signature == nil {
-						signature = doneMessage.signature
-					} else {
-						if !signature.Equals(doneMessage.signature) {
-							return nil, 0, fmt.Errorf(
-								"not matching signatures detected: [%v] and [%v]",
-								signature,
-								doneMessage.signature,
-							)
-						}
-					}
-
-					if doneMessage.endBlock > latestEndBlock {
-						latestEndBlock = doneMessage.endBlock
-					}
-				}
-
-				return &signing.Result{Signature: signature}, latestEndBlock, nil
+			result, latestEndBlock, done, err := sdc.checkAllDone()
+			if done {
+				return result, latestEndBlock, err
 			}
 		}
 	}
+}
+
+// checkAllDone checks, under the done signers lock, whether all expected
+// done checks were received. If so, the third returned value is true and
+// the remaining ones are the outcome of waitUntilAllDone.
+func (sdc *signingDoneCheck) checkAllDone() (
+	*signing.Result,
+	uint64,
+	bool,
+	error,
+) {
+	sdc.doneSignersMutex.Lock()
+	defer sdc.doneSignersMutex.Unlock()
+
+	if sdc.expectedSignersCount != len(sdc.doneSigners) {
+		return nil, 0, false, nil
+	}
+
+	var signature *tecdsa.Signature
+	var latestEndBlock uint64
+
+	for _, doneMessage := range sdc.doneSigners {
+		if signature == nil {
+			signature = doneMessage.signature
+		} else {
+			if !signature.Equals(doneMessage.signature) {
+				return nil, 0, true, fmt.Errorf(
+					"not matching signatures detected: [%v] and [%v]",
+					signature,
+					doneMessage.signature,
+				)
+			}
+		}
+
+		if doneMessage.endBlock > latestEndBlock {
+			latestEndBlock = doneMessage.endBlock
+		}
+	}
+
+	return &signing.Result{Signature: signature}, latestEndBlock, true, nil
 }
 
 // isValidDoneMessage validates the given signingDoneMessage in the context
